@@ -206,6 +206,20 @@ def run(m: Model, r: Report, tier: str) -> None:
     mrets = [m.mtext(gv, n.value) for n in walk_no_nested(gv.node) if isinstance(n, ast.Return) and n.value is not None]
     r.check("_L if _L is not None else default" in mrets and all("or default" not in x for x in rets), "R7", f"{gv.qualname}#falsy-values",
             f"get_value returns {rets}: values such as false, 0 or '' in gallia.toml must not be treated as absent", loc=gv.loc)
+    # descending into the nested tables: the default is returned early exactly when the path left the tables (current level is None)
+    from sa.util import path_condition as _pc18, truth_table as _tt18
+    gv_loops = [n for n in walk_no_nested(gv.node) if isinstance(n, ast.For)]
+    early = [n for l_ in gv_loops for n in ast.walk(l_) if isinstance(n, ast.Return) and n.value is not None and ast.unparse(n.value) == "default"]
+    if len(gv_loops) != 1 or len(early) != 1:
+        raise AnalysisError(f"{gv.qualname}: descent loop / early default return not found")
+    conds_e = [(t, p_) for t, p_ in _pc18(gv.node, early[0])]
+    atoms_e = sorted({x.id for t, _ in conds_e for x in ast.walk(t) if isinstance(x, ast.Name)})
+    bad_e = _tt18(conds_e, {a_: [None, {"k": 1}] for a_ in atoms_e}, lambda a: all(v is None for v in a.values())) if len(atoms_e) == 1 else ["?"]
+    r.check(not bad_e, "R7", f"{gv.qualname}#descent", f"the default is returned early on {bad_e}: it must be returned exactly when the current table is missing (None)", loc=gv.loc)
+    step = [n for n in ast.walk(gv_loops[0]) if isinstance(n, ast.Assign) and isinstance(n.value, ast.IfExp) and "isinstance(" in ast.unparse(n.value.test) and "dict" in ast.unparse(n.value.test)]
+    r.check(len(step) == 1 and isinstance(step[0].value.orelse, ast.Constant) and step[0].value.orelse.value is None and
+            m.mtext(gv, step[0].value.body) == "_L" and m.mtext(gv, step[0].value.test) == "isinstance(_L, dict)", "R7", f"{gv.qualname}#descent-step",
+            "the next table is the looked-up value if it is a dict, else None", loc=gv.loc)
     r.check("(_L := config.get_value(KEY)) is not None" in m.mtext(fc, None, rc), "R7", f"{fc.qualname}#present-test", "file values must be tested with `is not None`", loc=fc.loc)
     r.check("(_L := os.getenv(KEY)) is not None" in m.mtext(fe, None, re_), "R7", f"{fe.qualname}#present-test", "env values must be tested with `is not None`", loc=fe.loc)
 
